@@ -29,6 +29,7 @@ import tempfile
 import threading
 import time as _time
 import uuid as _uuid
+import weakref
 
 _real = {}          # name -> original callable
 _installed = False
@@ -144,6 +145,7 @@ class Kernel:
         self.step_cap = cfg.get('step_cap', 400000)
         self.fault_fired = collections.Counter()
         self.probes = collections.Counter()
+        self.idstate = {'table': {}, 'free': [], 'next': 0x7f3a00001000}      # simulated object addresses (see _sim_id)
         # file timestamps are a clock too: (st_dev, st_ino) -> (simulated wall-clock time of the last modification, the real
         # st_mtime_ns seen when that was recorded - a different real stamp later means "modified outside the seams")
         self.mtimes = {}
@@ -1620,6 +1622,56 @@ def _sim_wait(fs, timeout=None, return_when=_cf.ALL_COMPLETED):
     k.block(ok, timeout=timeout, what='wait')
     d = {f for f in fs if _fdone(f)}
     return _cf_base.DoneAndNotDoneFutures(d, fs - d)
+
+
+# --------------------------------------------------------------------------------------
+# object addresses.  id(obj) is a memory address, and CPython hands the address of a dead object to the next object of the same
+# size: whether two objects that never coexist "have the same id" is decided by the allocator, not by the program.  Code of the
+# repository that calls id() gets a simulated address instead: an object keeps its address while it lives, and whether a new
+# object re-uses the address of a dead one is a choice of the seeded scheduler (so that such a run replays exactly).  The
+# pinned tree never calls id(); the seam is dormant until a change introduces such a call.
+# --------------------------------------------------------------------------------------
+_real_id = id
+
+
+def _sim_id(obj):
+    p = cur()
+    rid = _real_id(obj)
+    if p is None:
+        return rid
+    k = p.kernel
+    st = k.idstate
+    ent = st['table'].get(rid)
+    if ent is not None and ent[0]() is obj:
+        return ent[1]
+    try:
+        def _dead(wr_, rid=rid, st=st):
+            e = st['table'].get(rid)
+            if e is not None and e[0] is wr_:
+                del st['table'][rid]
+                st['free'].append(e[1])
+        wr = weakref.ref(obj, _dead)
+    except TypeError:
+        return rid          # (not weakly referenceable: numbers, strings, tuples - their identity is not an allocation of the program)
+    if st['free'] and k.cs.choose(2, 'addr') == 1:
+        addr = st['free'].pop()
+        k.probes['address_of_a_dead_object_reused'] += 1
+    else:
+        addr = st['next']
+        st['next'] += 64
+    st['table'][rid] = (wr, addr)
+    k.probes['object_addresses_handed_out'] += 1
+    return addr
+
+
+def install_id_seam(packages):
+    """binds the name `id` in the globals of every imported module of the given packages to the simulated address function"""
+    n = 0
+    for name, mod in list(sys.modules.items()):
+        if mod is not None and name.split('.')[0] in packages and 'id' not in getattr(mod, '__dict__', {'id': 1}):
+            mod.__dict__['id'] = _sim_id
+            n += 1
+    return n
 
 
 def _sim_cpu_count():
